@@ -814,7 +814,8 @@ Definition kop_dom (op : kop) (x y : list Z) : bool :=
   match op with
   | KL2 t => dom_l2 t x y
   | KL2Scalar lanes => (0 <? lanes)%nat && dom_l2 F32 x y
-  | KDot t | KDotDist t => dom_dot t x y
+  | KDot t => dom_dot t x y
+  | KDotDist t => dom_dot t x y && (pairs_abs_sum Z.mul x y <? TWO24)
   | KNorm t => dom_norm t x
   | KNormImpl lanes => (0 <? lanes)%nat && dom_norm F32 x
   | KCos t =>
@@ -865,7 +866,7 @@ Definition batch_dom (m : metric) (t : ety) (from to : list Z) (dim : nat) : boo
       (length from =? dim)%nat && (length to mod dim =? 0)%nat &&
       forallb (fun v => kop_dom (KCos t) from v) (fst (chunks_exact dim to))
   | ML2 => forallb (fun v => dom_l2 t from v) (fst (chunks_exact dim to))
-  | MDot => forallb (fun v => dom_dot t from v) (fst (chunks_exact dim to))
+  | MDot => forallb (fun v => kop_dom (KDotDist t) from v) (fst (chunks_exact dim to))
   | MHamming => bytes_ok from && bytes_ok to
   end.
 
